@@ -3856,7 +3856,12 @@ class FormatterGroup:
         parser_rs: ReturnParseType = cls.__parse(bytes2str(value), fmt)
         rs: dict[str, DictStr] = defaultdict(dict)
         for g in parser_rs:
-            rs[g.split("__")[0]] |= parser_rs[g]["props"]
+            # NOTE: keep the captures of every occurrence apart, the counter of
+            #   a repeated directive in one occurrence can be the same as the
+            #   suffix of another occurrence of this group.
+            rs[g.split("__")[0]] |= {
+                f"{k}__{g}": v for k, v in parser_rs[g]["props"].items()
+            }
         try:
             return cls(formats=rs)
         except (ValueError, ArithmeticError) as err:
